@@ -143,9 +143,22 @@ theorem lexTokens_no_asm (l : List Char) (ln : Line) : lexTokens l ≠ .error (.
 
 /-! ### frontEnd: read, lex, parse -/
 
+/-- `lexLine` raises an AssemblerError only with its own line (an undecodable escape, fix b49f1cd) -/
+theorem lexLine_asm (l ln : Line) (h : lexLine l = .error (.asm ln)) : ln = l := by
+  unfold lexLine at h
+  cases hl : lexTokens l.contents.toList with
+  | ok t => simp [hl] at h
+  | error e =>
+    simp only [hl] at h
+    by_cases he : e = Err.internal "UnicodeDecodeError"
+    · simp only [he, if_true, Except.error.injEq, Err.asm.injEq] at h; exact h.symm
+    · simp only [he, if_false, Except.error.injEq] at h
+      subst h
+      exact absurd hl (lexTokens_no_asm _ ln)
+
 theorem lexAll_lines : ∀ (ls : List Line),
     (∀ toks, frontEnd.lexAll ls = .ok toks → ∀ x ∈ toks, x.1 ∈ ls) ∧
-    (∀ ln, frontEnd.lexAll ls ≠ .error (.asm ln)) := by
+    (∀ ln, frontEnd.lexAll ls = .error (.asm ln) → ln ∈ ls) := by
   intro ls
   induction ls with
   | nil =>
@@ -157,13 +170,13 @@ theorem lexAll_lines : ∀ (ls : List Line),
   | cons l rest ih =>
     obtain ⟨ih1, ih2⟩ := ih
     simp only [frontEnd.lexAll, bind, Except.bind]
-    cases hl : lexTokens l.contents.toList with
+    cases hl : lexLine l with
     | error e =>
       refine ⟨fun toks h => by simp at h, ?_⟩
       intro ln h
       simp only [Except.error.injEq] at h
       subst h
-      exact lexTokens_no_asm _ ln hl
+      rw [lexLine_asm l ln hl]; exact List.mem_cons_self
     | ok ts =>
       simp only
       cases hr : frontEnd.lexAll rest with
@@ -172,7 +185,7 @@ theorem lexAll_lines : ∀ (ls : List Line),
         intro ln h
         simp only [Except.error.injEq] at h
         subst h
-        exact ih2 ln hr
+        exact List.mem_cons_of_mem _ (ih2 ln hr)
       | ok more =>
         refine ⟨?_, fun ln h => by simp [pure, Except.pure] at h⟩
         intro toks h x hx
@@ -295,7 +308,7 @@ theorem lexParse_lines (lines : List Line) :
     intro ln h
     simp only [bind, Except.bind, Except.error.injEq] at h
     subst h
-    exact absurd hl (l2 ln)
+    exact (List.mem_filter.mp (l2 ln hl)).1
   | ok toks =>
     obtain ⟨p1, p2⟩ := parseAll_lines toks
     have hsub : ∀ l ∈ toks.map Prod.fst, l ∈ lines := by
